@@ -484,6 +484,65 @@ pub fn run(run: &mut Run) {
         st.merge(s);
         mats.extend(m);
     }
+    // one user-written generic helper (`fn a, b -> a op b end`, no annotations) used at two domains in one program, in
+    // both orders of the two uses and three times over: what the first use settled about the operands must not leak
+    // into the second (every operator x every ordered pair of distinct domains typed for it)
+    {
+        let mut gjobs: Vec<(BinOp, usize, usize)> = Vec::new();
+        for op in [Eq, Ne, Lt, Gt, Le, Ge, Add, Sub, Mul, Div] {
+            let typed = |d: &Domain| match op {
+                Eq | Ne => d.eq,
+                Lt | Gt => d.lt,
+                Le | Ge => d.le,
+                _ => d.arith.contains(&op),
+            };
+            for (i, a) in doms.iter().enumerate() {
+                for (j, b) in doms.iter().enumerate() {
+                    if i != j && typed(a) && typed(b) {
+                        gjobs.push((op, i, j));
+                    }
+                }
+            }
+        }
+        let accs = crate::pool::par_items(&gjobs, 4, |_| Stats::new(), |acc, _, (op, i, j)| {
+            let (da, db) = (&doms[*i], &doms[*j]);
+            let pick = |d: &Domain, k: usize| d.values[k % d.values.len()].clone();
+            let mut ts = tops();
+            ts.push(Top::Def { name: "helper".into(), mutable: false, ty: None, value: lambda(vec![("a", None), ("b", None)], RetAnn::Implied, vec![Stmt::Expr(bin(*op, var("a"), var("b")))]) });
+            let mut body = Vec::new();
+            for round in 0..3usize {
+                body.push(print_of(callv("helper", vec![pick(da, round), pick(da, round + 1)])));
+                body.push(print_of(callv("helper", vec![pick(db, round), pick(db, round + 1)])));
+            }
+            ts.push(start_fn(body));
+            let mut p = Program { tops: ts };
+            acc.evaluations += 1;
+            let what = format!("helper `a {} b` used at {} then {}", op.text(), da.name, db.name);
+            let mut files = serde_json::Map::new();
+            match run_program(&mut p) {
+                Ok((lua, reference, text)) => {
+                    acc.nontrivial(fnv(what.as_bytes()));
+                    if lua == reference {
+                        acc.outcome("generic-helper:matches-structural-definition");
+                    } else {
+                        files.insert(MAIN.to_string(), json!(text));
+                        acc.outcome("generic-helper:wrong-result");
+                        acc.fail(Failure { sig: format!("wrong-result:{}", op.text()), preds: vec![format!("domain:{}", da.name), "generic-helper".into()], detail: format!("{}: Lua printed {:?}, the structural definition gives {:?}", what, lua, reference), case: json!({"engine": "c19", "files": files}), size: text.len() });
+                    }
+                }
+                Err((kind, detail, text)) if kind == "machinery" => {
+                    let _ = text;
+                    acc.count(&format!("generic-helper:not-decided-by-the-reference {}", detail), 1);
+                }
+                Err((kind, detail, text)) => {
+                    files.insert(MAIN.to_string(), json!(text));
+                    acc.outcome("generic-helper:FAIL");
+                    acc.fail(Failure { sig: format!("generic-helper-{}:{}", kind, op.text()), preds: vec![format!("domain:{}", da.name), "generic-helper".into()], detail: format!("{}: each use alone is typed and defined, the program with both is not: {}", what, detail), case: json!({"engine": "c19", "files": files, "expect": "accepted"}), size: text.len() });
+                }
+            }
+        });
+        st.merge(Stats::merge_all(accs));
+    }
     // laws on the result matrices (from the Lua side)
     for (di, d) in doms.iter().enumerate() {
         let n = d.values.len();
